@@ -98,6 +98,8 @@ class Check(BaseCheck):
         n, size = (45, "small") if self.quick else (900, "large")
         for c in tri_cases(self.seed + 11, n, size):
             yield c["v"], c["t"], c["name"], c["tags"]
+        for c in gen.narrow_cases():
+            yield c["v"], c["t"], c["name"], c["tags"]
         # exhaustive small complexes
         v4, t4 = gen.tetra_surface()
         for t in exhaustive_subcomplexes(t4):
